@@ -81,6 +81,7 @@ def inputs():
     hd = bits[:32].copy().reshape(-1, 4)
     hd[0] = [0, 0, 0, 0]; hd[1] = [1, 1, 0, 1]; hd[2] = [0, 1, 0, 0]
     I['hdd_in'] = hd.ravel().copy()
+    I['hdd_bseq'] = binary_sequence(hd.ravel().copy())
     return I
 
 
@@ -118,6 +119,8 @@ def menu():
         ('PPM_ENC', lambda I: ppm.PPM_ENCODER(I['ppm_bits'], 4), True),
         ('PPM_DEC', lambda I: ppm.PPM_DECODER(ppm.PPM_ENCODER(I['bseq'], 8), 8), True),
         ('HDD', lambda I: ppm.HDD(I['hdd_in'], 4), False),
+        ('HDD.bseq', lambda I: ppm.HDD(I['hdd_bseq'], 4), False),
+        ('PPM_DEC.bseq', lambda I: ppm.PPM_DECODER(ppm.HDD(I['hdd_bseq'], 4), 4), False),
         ('SDD', lambda I: ppm.SDD(I['rx'], 4), True),
         ('ook.TH', lambda I: ook.THRESHOLD_EST(I['eye']), True),
         ('ppm.TH', lambda I: ppm.THRESHOLD_EST(I['eye'], 4), True),
@@ -203,6 +206,8 @@ class Raised:
     """a call that raised: the exception type is the (comparable) outcome"""
     def __init__(self, e):
         self.kind = type(e).__name__
+        # the argument buffers are write-protected: numpy refuses an in-place write with this message
+        self.write_to_argument = isinstance(e, ValueError) and 'read-only' in str(e)
 
 
 def call(i, seed, g=0):
@@ -232,48 +237,63 @@ def poison(out):
             pass
 
 
+def _fresh_one(req):
+    """runs in a process forked from the pristine template (see fresh_table): its first library call after the
+    common set-up is menu entry i under grid g"""
+    i, g, seeds = req
+    import warnings
+    warnings.simplefilter('ignore')
+    out = {}
+    with np.errstate(all='ignore'):
+        for s in seeds:
+            out[s] = dig(call(i, int(s), g))
+    return (i, g, out)
+
+
 def fresh_solo_main(argv):
-    """entry point of the fresh-process oracle: `python -m mcx.props.c14b <i> <seed> [<seed> ...]` prints the digests of
-    menu entry i executed as the FIRST library call of a new interpreter (the state reached from the initial state)"""
+    """`python -m mcx.props.c14b '<json list of [i, g, seeds]>'`: template process of the fresh-state oracle.  It imports the
+    library, builds the shared inputs and then NEVER calls the library itself; every request is executed in a child forked
+    from it that serves exactly one request (maxtasksperchild=1), i.e. in the state 'interpreter started, library
+    imported, inputs built, nothing else called'."""
     import json, os, sys, warnings
+    import multiprocessing as mp
     repo = os.environ.get('MCX_REPO', '/repo')
     if repo not in sys.path:
         sys.path.insert(0, repo)
     warnings.simplefilter('ignore')
-    i, g = int(argv[0]), int(argv[1])
-    out = {}
-    C = setup()
-    with np.errstate(all='ignore'):
-        for s in argv[2:]:
-            out[s] = dig(call(i, int(s), g))
-    print('SOLO ' + json.dumps(out))
+    reqs = [(i, g, tuple(seeds)) for i, g, seeds in json.loads(argv[0])]
+    setup()
+    with mp.get_context('fork').Pool(16, maxtasksperchild=1) as pool:
+        res_ = pool.map(_fresh_one, reqs, chunksize=1)
+    print('TABLE ' + json.dumps([[i, g, out] for i, g, out in res_]))
 
 
 def fresh_table(n, seeds):
-    """digests of every menu entry (n = count, or an explicit list of menu indices) from a fresh interpreter
-    (one subprocess per entry and grid, 16 at a time)"""
-    idx = list(range(n)) if isinstance(n, int) else list(n)
+    """digests of every menu entry (n = count, or an explicit list of menu indices) under every grid, each computed in a
+    process whose first library call it is (children forked one-per-request from a pristine template process)"""
     import json, os, subprocess, sys
-    from concurrent.futures import ThreadPoolExecutor
+    idx = list(range(n)) if isinstance(n, int) else list(n)
     env = dict(os.environ, OMP_NUM_THREADS='1', OPENBLAS_NUM_THREADS='1', MPLBACKEND='Agg', PYTHONHASHSEED='0')
-
-    def one(ig):
-        i, g = ig
-        p = subprocess.run([sys.executable, '-m', 'mcx.props.c14b', str(i), str(g)] + [str(s) for s in seeds], capture_output=True, text=True,
-                           env=env, cwd=os.path.dirname(os.path.dirname(os.path.dirname(os.path.abspath(__file__)))), timeout=900)
-        for line in p.stdout.splitlines():
-            if line.startswith('SOLO '):
-                return {(i, g, int(k)): v for k, v in json.loads(line[5:]).items()}
-        return {(i, g, s): 'FRESH-PROCESS-FAILED:' + p.stderr[-300:] for s in seeds}
+    reqs = [[i, g, list(seeds)] for i in idx for g in range(len(GVS))]
+    p = subprocess.run([sys.executable, '-m', 'mcx.props.c14b', json.dumps(reqs)], capture_output=True, text=True, env=env,
+                       cwd=os.path.dirname(os.path.dirname(os.path.dirname(os.path.abspath(__file__)))), timeout=3600)
     tab = {}
-    with ThreadPoolExecutor(16) as ex:
-        for d in ex.map(one, [(i, g) for i in idx for g in range(len(GVS))]):
-            tab.update(d)
+    for line in p.stdout.splitlines():
+        if line.startswith('TABLE '):
+            for i, g, out in json.loads(line[6:]):
+                for k, v in out.items():
+                    tab[(i, g, int(k))] = v
+    for i in idx:
+        for g in range(len(GVS)):
+            for s_ in seeds:
+                tab.setdefault((i, g, s_), 'FRESH-PROCESS-FAILED:' + p.stderr[-400:])
     return tab
 
 
 def check_after(name, out, viol, where, g=0):
     C = _CACHE
+    if isinstance(out, Raised) and out.write_to_argument:
+        viol.append((f'purity:writes-to-argument:{name}', f'{where}: {name} tried to write in place into (write-protected) sample data of an argument'))
     if gv_snapshot() != C['gv0'][g]:
         viol.append((f'purity:gv-modified:{name}', f'{where}: gv changed by {name}'))
         gv_reset(**GVS[g])
@@ -364,9 +384,9 @@ def run_part_b(ctx):
     s0 = ctx.seed
     ctx.rule(f'C14-B: menu of {n} public calls on shared write-protected inputs under {G} ambient grids; oracle for every call = the '
              f'same call made FIRST in a fresh interpreter (one subprocess per entry and grid); executed: every entry twice per seed '
-             f'and grid; every ordered pair of entries on the base grid under 3 seeds; every entry under every ordered grid switch '
-             f'g1,g2,g1; every ordered pair of cheap entries across a grid switch; every ordered triple (quick) / quadruple on the 16 '
-             f'cheapest (thorough) of cheap entries; after every call: gv snapshot and argument bytes unchanged, no output shares '
+             f'and grid; every ordered pair of entries on the base grid (the seed of the run; cheap second entries under 2 more seeds); every entry under every ordered grid switch '
+             f'g1,g2,g1; every ordered pair of cheap entries across a grid switch; every ordered triple of the 36 cheapest entries (quick) / of all cheap entries plus every quadruple of the 16 '
+             f'cheapest (thorough); after every call: gv snapshot and argument bytes unchanged, no output shares '
              f'memory with an argument, earlier outputs intact; examined outputs are overwritten to expose shared/memoised buffers')
     table = fresh_table(n, seeds)
     failed = [k for k, v in table.items() if str(v).startswith('FRESH-PROCESS-FAILED')]
@@ -380,7 +400,7 @@ def run_part_b(ctx):
     ctx.extra['menu_seed_sensitive'] = sorted(p['name'] for p in pay if p and p['seed_sensitive'])
     ctx.extra['menu_gv_sensitive'] = sorted(p['name'] for p in pay if p and p['gv_sensitive'])
     # depth 2 over the whole menu on the base grid, 3 seeds: prefix (a), tail = every entry
-    cases = [(((a, 0),), s, tuple((b, 0) for b in range(n)), table) for a in range(n) for s in seeds]
+    cases = [(((a, 0),), s, tuple((b, 0) for b in (range(n) if s == s0 else cheap)), table) for a in range(n) for s in seeds]
     ctx.pmap('purity.depth2', seq_case, cases, horizon=600, chunk=1, recheck=0)
     # grid switches: every entry under g1, g2, g1 for every ordered pair of grids
     sw = [((), s0, ((a, g1), (a, g2), (a, g1)), table) for a in range(n) for g1 in range(G) for g2 in range(G) if g1 != g2]
@@ -389,8 +409,10 @@ def run_part_b(ctx):
     cx = [(((a, g1),), s0, tuple((b, g2) for b in cheap), table) for a in cheap for (g1, g2) in ((0, 1), (1, 0), (0, 2), (2, 0))]
     ctx.pmap('purity.gvcross', seq_case, cx, horizon=600, chunk=2, recheck=0)
     # depth 3 over cheap entries: prefix (a,b), tail = cheap
-    cases = [(((a, 0), (b, 0)), s0, tuple((c, 0) for c in cheap), table) for a in cheap for b in cheap]
-    nseq = len(cases) * len(cheap)
+    d3 = cheap if not ctx.quick else sorted(cheap, key=lambda i: costs.get(M[i][0], 1e9))[:36]
+    cases = [(((a, 0), (b, 0)), s0, tuple((c, 0) for c in d3), table) for a in d3 for b in d3]
+    nseq = len(cases) * len(d3)
+    ctx.extra['depth3_entries'] = [M[i][0] for i in d3]
     if not ctx.quick:
         c16 = sorted(cheap, key=lambda i: costs.get(M[i][0], 1e9))[:16]
         cases += [(((a, 0), (b, 0), (c, 0)), s0, tuple((d, 0) for d in c16), table) for a in c16 for b in c16 for c in c16]
